@@ -634,11 +634,19 @@ package crypto
 //@ pred g1x(b) = be48(b[0:48]) - (b[0]/32)*4925250774549309901534880012517951725634967408808180833493536675530715221437151326426783281860614455100828498788352
 //@ pred g1rhs(x) = fpAddM(fpMulM(fpSquM(x), x), cglobal(B_E1))
 
-//@ cfunc E1_read_bytes props C05 C09
+// the y coordinate selected by the sign flag s, the decoded point, and the set of canonical encodings
+//@ pred g1ysel(xm, s) = ite(fpSgn(fpSqrtM(g1rhs(xm))) == s, fpSqrtM(g1rhs(xm)), fpNegM(fpSqrtM(g1rhs(xm))))
+//@ pred g1pt(b) = ite(g1flagI(b), e1Inf(), e1c(fpToMont(g1x(b)), g1ysel(fpToMont(g1x(b)), (b[0]/32)%2), cglobal(BLS12_381_pR)))
+//@ pred g1canon(b) = g1flagC(b) && ite(g1flagI(b), g1infEnc(b), g1x(b) < FpP() && fpSqrtOk(g1rhs(fpToMont(g1x(b)))))
+
+//@ cfunc E1_read_bytes props C05 C09 C01
+//@ dead-return 6   // the sign/compression consistency test cannot fail once the compression bit was checked
 //@ requires a != nil
 //@ requires in_len == 48 ==> valid(in, 48)
 //@ assigns *a
 //@ ensures [length] in_len != 48 ==> result == BAD_ENCODING
+//@ ensures [accepts-exactly-canonical] in_len == 48 ==> (result == VALID) == old(g1canon(in))
+//@ ensures [decoded-point] result == VALID ==> *a == old(g1pt(in))
 //@ ensures [compression-bit] old(in_len == 48 && !g1flagC(in)) ==> result == BAD_ENCODING
 //@ ensures [infinity-canonical] old(in_len == 48 && g1flagC(in) && g1flagI(in)) ==> (result == VALID) == old(g1infEnc(in)) && (result == VALID || result == BAD_ENCODING)
 //@ ensures [infinity-value] old(in_len == 48 && g1flagI(in)) && result == VALID ==> e1IsInf(*a)
@@ -715,11 +723,19 @@ package crypto
 //@ pred g2x0(b) = be48(b[48:96])
 //@ pred g2rhs(x) = fp2AddM(fp2MulM(fp2SquM(x), x), cglobal2(B_E2))
 
+//@ pred g2ysel(xm, s) = ite(fp2Sgn(fp2SqrtM(g2rhs(xm))) == s, fp2SqrtM(g2rhs(xm)), fp2NegM(fp2SqrtM(g2rhs(xm))))
+//@ pred g2xm(b) = fp2c(fpToMont(g2x0(b)), fpToMont(g2x1(b)))
+//@ pred g2pt(b) = ite(g1flagI(b), e2Inf(), e2c(g2xm(b), g2ysel(g2xm(b), (b[0]/32)%2), fp2c(cglobal(BLS12_381_pR), 0)))
+//@ pred g2canon(b) = g1flagC(b) && ite(g1flagI(b), g2infEnc(b), g2x1(b) < FpP() && g2x0(b) < FpP() && fp2SqrtOk(g2rhs(g2xm(b))))
+
 //@ cfunc E2_read_bytes props C05 C09
+//@ dead-return 6   // the sign/compression consistency test cannot fail once the compression bit was checked
 //@ requires a != nil
 //@ requires in_len == 96 ==> valid(in, 96)
 //@ assigns *a
 //@ ensures [length] in_len != 96 ==> result == BAD_ENCODING
+//@ ensures [accepts-exactly-canonical] in_len == 96 ==> (result == VALID) == old(g2canon(in))
+//@ ensures [decoded-point] result == VALID ==> *a == old(g2pt(in))
 //@ ensures [compression-bit] old(in_len == 96 && !g1flagC(in)) ==> result == BAD_ENCODING
 //@ ensures [infinity-canonical] old(in_len == 96 && g1flagC(in) && g1flagI(in)) ==> (result == VALID) == old(g2infEnc(in)) && (result == VALID || result == BAD_ENCODING)
 //@ ensures [infinity-value] old(in_len == 96 && g1flagI(in)) && result == VALID ==> e2IsInf(*a)
@@ -734,12 +750,12 @@ package crypto
 //@ cfunc E1_to_affine nobody
 //@ requires res != nil && p != nil
 //@ assigns *res
-//@ ensures *res == e1Affine(old(*p))
+//@ ensures *res == e1Affine(old(*p)) && e1IsInf(*res) == old(e1IsInf(*p))
 
 //@ cfunc E2_to_affine nobody
 //@ requires res != nil && p != nil
 //@ assigns *res
-//@ ensures *res == e2Affine(old(*p))
+//@ ensures *res == e2Affine(old(*p)) && e2IsInf(*res) == old(e2IsInf(*p))
 
 //@ cfunc E1_write_bytes props C05 C09
 //@ requires a != nil && valid(out, 48)
